@@ -62,7 +62,7 @@ def _case(draw, tier, targets):
     name, variant = draw(st.sampled_from(targets))
     e = catalog.get(name)
     ragged = (not e.has("rect")) and draw(st.booleans())
-    S = [draw(catgen.cat_table(ragged=ragged, max_rows=5)) for _ in range(e.n)]
+    S = [draw(catgen.cat_table(ragged=ragged, max_rows=5, cells=e.cells)) for _ in range(e.n)]
     n = draw(gen.sizes(3, 24))
     # slot 0 and 1 are favoured so that two iterators are usually live together
     acts = draw(st.lists(st.tuples(st.sampled_from(["adv", "adv", "adv", "adv", "adv", "adv", "adv", "new", "drop"]),
